@@ -766,7 +766,7 @@ func c07Extra(r *Run) error {
 		return err
 	}
 	r.boundedGoTest("C07-probe", "a fixed list of source texts is compiled and run in-process without a Go panic (a reported error or a time-out is fine)",
-		"335 source texts: truncated statements, every directive at the end of the text, operators on operands of the wrong kind, out-of-range indexes and slices, runtime functions with no, too few or ill-typed arguments; includes the input behind every crash repaired so far")
+		"383 source texts: truncated statements, every directive at the end of the text, operators on operands of the wrong kind, out-of-range indexes and slices, runtime functions with no, too few or ill-typed arguments; includes the input behind every crash repaired so far")
 	tk := modInternal + "language/tokenizer"
 	f := r.structField(tk, "Tokenizer", "TokenP")
 	if f == nil {
